@@ -164,6 +164,7 @@ pub struct NetCfg {
 #[derive(Default, Debug, Clone)]
 pub struct Stats {
     pub owed_pairs: u64,
+    pub short_owed_pairs: u64,
     pub allowed_receives: u64,
     pub ambiguous_receives: u64,
     pub fanout2: u64,
@@ -696,6 +697,47 @@ impl Model {
                     );
                 } else if last.1 > dl && !got.contains_key(&(d.id, *xi)) {
                     stats.overflow_loss_observed += 1;
+                }
+            }
+            // owed datagrams too short to carry their id (0..2 bytes): a counting argument. At an empty
+            // observation after their deadlines, the socket must have received at least as many datagrams
+            // that *could* be one of them (same bytes up to the cut, compatible origin) as are owed; every
+            // doubt (truncated longer datagrams with the same prefix, receives without origin) counts in
+            // favour of the subject.
+            let short_owed: Vec<&SendRec> = self.sends.iter().filter(|d| d.len < ID_LEN && self.stable_yes(d, *xi) && self.depth_bound(d, *xi, &recv_step_of) < self.cfg.capacity).collect();
+            if !short_owed.is_empty() {
+                stats.short_owed_pairs += short_owed.len() as u64;
+                for (oseq, ostep) in list {
+                    let mut groups: BTreeMap<(Vec<u8>, SocketAddr), Vec<&SendRec>> = BTreeMap::new();
+                    for d in &short_owed {
+                        if self.deadline_step(d, self.is_same_host(d, x)) < *ostep {
+                            groups.entry((payload(d.id, d.tag, d.len), self.origin(d))).or_default().push(d);
+                        }
+                    }
+                    for ((want, org), ds) in &groups {
+                        let have = self
+                            .recvs
+                            .iter()
+                            .filter(|r| r.sock == *xi && r.seq <= *oseq)
+                            .filter(|r| match &r.outcome {
+                                Outcome::Data { bytes, origin, .. } => bytes.len() <= want.len() && bytes[..] == want[..bytes.len()] && origin.map(|o| o == *org).unwrap_or(true),
+                                _ => false,
+                            })
+                            .count();
+                        if have < ds.len() {
+                            let d = ds[0];
+                            return (
+                                Some(Bad {
+                                    class: "Lost",
+                                    message: format!(
+                                        "{} short datagram(s) of {} byte(s) {:?} from {} (e.g. datagram {} sent in step {} by {} to {} ({:?})) are owed to {} (destination during the whole delivery window, healthy link, queue bound within capacity {}), but when {} saw an empty queue in step {} it had received only {} datagram(s) that could be one of them",
+                                        ds.len(), want.len(), want, org, d.id, d.step, self.socks[d.sock].name, d.dst, d.class, x.name, self.cfg.capacity, x.name, ostep, have
+                                    ),
+                                }),
+                                stats,
+                            );
+                        }
+                    }
                 }
             }
         }
